@@ -31,6 +31,7 @@ EXTRA = [
     "$[?@.a == 1.5e1]", "$[?@.a == 100000000000000000000]", "$[?@.a == 2.5E-1]", "$[-1:]", "$[::2]", "$[1:2:3, 4]", "$..[1:]", "$[?@[1:2]]", "$.~", "$[~, 'a']", "$..~",
     "$[?# == 'a' && _.x == @.b]", "$[?@.a in [1, 'x', null, true]]", "$[?count(@.*) == 1 || !match(@.s, 'a')]", "$[?length(value(@..a)) > 1]", "$.a.b['c'][0]",
     "$['and']", "$..['or']", "$[?@['true'] == true]", "$[?@.a == undefined]", "$[?@.a == nil]", "a", "[0]", "$[a]", "$.[a]", "$[?@.a <> 1]", "$[?@.a contains 'x']",
+    "$[?typeof(@.a) == 'number']", "$[?type(@.s) == 'string']", "$[?is(@.a, 'array')]", "$[?isinstance(@, 'object') && !is(@.a, 'null')]", "$[?typeof(@.nope) == 'undefined']",
     "$[?not @.a and not (@.b or @.c)]", "$[?!@.a == false]", "$[?(!@.a) == false]", "$[?@.a == !@.b]",
 ]
 
@@ -74,8 +75,28 @@ def lexer_soup(ctx):
     return ["".join(ctx.rng.choice(SOUP) for _ in range(ctx.rng.randint(1, 6))) for _ in range(n)]
 
 
+FLOATS = ["1e-7", "1e22", "12345678901234567890.5", "0.1", "-0.0", "0.0", "1E2", "1.5e300", "5e-324", "2.5e-5", "123456789.125", "1e16", "1e15", "9007199254740993.0", "0.30000000000000004",
+          "1e+2", "1.0e0", "100.0", "-1e-7", "1.7976931348623157e308"]
+
+
+def literal_texts(ctx):
+    """string literals over the whole dangerous-name pool in both quote styles, in name selectors and in comparisons;
+    float literals in every spelling class"""
+    out = []
+    for n in qgen.NAMES + ["\x1f", "\x1e", "\x00", "a\x7fb", "tab\there", "\U0001d11e", "''", '""', "\\'", "</script>"]:
+        for q in ("'", '"'):
+            lit = qgen.quote(n, ctx.rng, q)
+            out.append(f"$[?@.a == {lit}]")
+            out.append(f"$[{lit}]")
+            out.append(f"$[?{lit} in @.list]")
+    for f in FLOATS:
+        out.append(f"$[?@.a == {f}]")
+        out.append(f"$[?@.a > {f} && @.b <= -{f.lstrip('-')}]")
+    return out
+
+
 def gen(ctx):
-    texts = qpool.all_texts() + EXTRA + grouping_grid() + qpool.generated_texts(ctx.rng, 500 if ctx.tier == "quick" else 12000)
+    texts = qpool.all_texts() + EXTRA + literal_texts(ctx) + grouping_grid() + qpool.generated_texts(ctx.rng, 500 if ctx.tier == "quick" else 12000)
     # fuzz: mutate accepted strings
     base = list(texts)
     import jsonpath
